@@ -528,6 +528,19 @@ class ResSpec(NetFamily):
             f = np.triu(f, 1) + np.triu(f, 1).T
             self.R_pool.append(R * f)
         self.mutators.insert(0, Mut("update_resistances", self.m_res))
+        self.mutators.insert(1, Mut("update_resistances[same-array-edited]", self.m_res_inplace))
+
+    def m_res_inplace(self, run, k):
+        """the caller edits, in place, the resistance array the object hands out and passes that very object back"""
+        R = self.R_pool[(k + 1) % len(self.R_pool)]
+        r = run.obj.resistances
+        if isinstance(r, np.ndarray) and r.shape == R.shape and r.dtype == R.dtype and r.flags.writeable:
+            r[...] = R
+        else:
+            r = R.copy()
+        run.obj.update_resistances(r)
+        run.model.update(R=R.copy())
+        return {"resistances": R, "how": "edited in place and passed again"}
 
     def m_res(self, run, k):
         R = self.R_pool[k % len(self.R_pool)]
